@@ -3,7 +3,7 @@
 and records which checks report a violation. Writes seeded/MATRIX.json and seeded/MATRIX.md.
 With arguments (seed names, e.g. C33-e C34-c) only those seeds are re-run; the rows of the others are kept from MATRIX.json."""
 import json,os,subprocess,glob,re,shutil,sys
-V='/verif'; R='/repo'
+V='/verif'; R=os.environ.get('SEEDMATRIX_REPO','/repo')  # a scratch git worktree of /repo can stand in (e.g. while a self-test rsyncs /repo)
 tmpv='/tmp/seedmatrix-verif'
 os.makedirs(tmpv+'/evidence',exist_ok=True)
 shutil.copy(V+'/known_findings.json',tmpv)
@@ -31,7 +31,7 @@ for d in sorted(glob.glob(V+'/seeded/C*')):
     else:
         subprocess.run(['patch','-p1','-s','-f','-d',R,'-i',patch],check=True)
     try:
-        out=subprocess.run([tmpv+'/zcheck','-all','-verif',tmpv],capture_output=True,text=True).stdout
+        out=subprocess.run([tmpv+'/zcheck','-all','-repo',R,'-verif',tmpv],capture_output=True,text=True).stdout
     finally:
         subprocess.run(['git','-C',R,'checkout','--','.'],check=True)
         subprocess.run(['git','-C',R,'clean','-fdq'],check=True)
